@@ -126,6 +126,7 @@ func ruleStringAt(c *Ctx) {
 			b.bad = "returns " + sp.Ret[0].String() + " instead of " + wantRet
 		}
 	}
+	stringAccessors(c, p)
 	for _, k := range []bool{false, true} {
 		b := brs[k]
 		okb := b.bad == "" && b.okPaths >= 1 && b.errPaths >= 1
@@ -135,6 +136,65 @@ func ruleStringAt(c *Ctx) {
 		}
 		c.Check(okb, "stringByteAt:"+b.name, p.Pos(fd), "returns exactly "+b.buf+"[off:off+length] and rejects exactly what does not fit",
 			"stringByteAt ("+b.name+" branch): "+why, "an empty string stored last (`{\"a\":1,\"\":2}`), a string ending exactly at the end of the buffer, a payload with the tag byte still present")
+	}
+}
+
+// stringAccessors — Iter.String / Iter.StringBytes: only for string tags, with the length word on the tape, through the
+// one accessor with (payload, length word); stringAt is its string form.
+func stringAccessors(c *Ctx, p *GoProg) {
+	for _, s := range []struct{ fn, via string }{{"Iter.String", "ParsedJson.stringAt"}, {"Iter.StringBytes", "ParsedJson.stringByteAt"}} {
+		fd := p.Func(s.fn)
+		if fd == nil {
+			c.Unresolved(s.fn, "function not found")
+			continue
+		}
+		sps, _ := p.SymPaths(fd, 100, nil)
+		bad := ""
+		nOK := 0
+		for _, sp := range sps {
+			if !sp.Feasible() || len(sp.Ret) < 1 {
+				continue
+			}
+			isErr := len(sp.Ret) == 2 && !isNilAff(sp.Ret[1])
+			cs := callsTo(sp, s.via)
+			switch {
+			case hasCond(sp, "R.t", token.NEQ, "34"):
+				if !isErr || len(cs) != 0 {
+					bad = "a value that is not a string is not refused"
+				}
+			case !hasCond(sp, "R.t", token.EQL, "34"):
+				bad = "the tag is not tested"
+			case hasCond(sp, "R.off", token.GEQ, "len(R.tape.Tape)"):
+				if !isErr || len(cs) != 0 {
+					bad = "a string without its length word on the tape is not refused"
+				}
+			default:
+				nOK++
+				if !hasCond(sp, "R.off", token.LSS, "len(R.tape.Tape)") || len(cs) != 1 || cs[0].Base != "R.tape" || len(cs[0].Args) != 2 || cs[0].Args[0].String() != "R.cur" || cs[0].Args[1].String() != "R.tape.Tape[R.off]" || len(sp.Ret) != 1 || sp.Ret[0].String() != cs[0].Val.String() {
+					bad = "a string is not read as " + s.via + "(cur, Tape[off]) with the result handed on unchanged"
+				}
+			}
+		}
+		if bad == "" && nOK != 1 {
+			bad = "expected exactly one delivering path"
+		}
+		c.Check(bad == "", s.fn+":access", p.Pos(fd), "string tag required; length word present; "+s.via+"(cur, Tape[off])", s.fn+": "+bad, `["abc"]`)
+	}
+	if fd := p.Func("ParsedJson.stringAt"); fd != nil {
+		sps, _ := p.SymPaths(fd, 10, nil)
+		okS := len(sps) == 1
+		for _, sp := range sps {
+			cs := callsTo(sp, "ParsedJson.stringByteAt")
+			if len(cs) != 1 || cs[0].Base != "R" || len(cs[0].Args) != 2 || cs[0].Args[0].String() != "P:offset" || cs[0].Args[1].String() != "P:length" || len(sp.Ret) != 2 {
+				okS = false
+				continue
+			}
+			v := cs[0].Val.String()
+			okS = okS && sp.Ret[0].String() == "string("+v+".0)" && sp.Ret[1].String() == v+".1"
+		}
+		c.Check(okS, "stringAt:wrap", p.Pos(fd), "string(b), err of stringByteAt(offset, length)", "stringAt is not the string form of stringByteAt with the same arguments", "")
+	} else {
+		c.Unresolved("ParsedJson.stringAt", "function not found")
 	}
 }
 
